@@ -7,7 +7,7 @@ import (
 
 // DispatchForms are the ways a function body can transfer control to a target function (C12, C18).
 var DispatchForms = []string{"static", "fvar", "ffield", "fslice", "fmap", "closure", "mvalue", "mexpr", "iface", "ifacePtr", "embedded",
-	"generic", "deferred", "go", "goClosure", "fparam", "deferArg", "goArg", "ifaceWiden", "globalInit", "retFunc", "chanFunc", "ifaceTwo", "ifaceShared"}
+	"generic", "deferred", "go", "goClosure", "fparam", "deferArg", "goArg", "ifaceWiden", "globalInit", "retFunc", "chanFunc", "ifaceTwo", "ifaceShared", "mapKeyIface", "mapKeyPtr", "mapKeyChan", "mapKeyField"}
 
 type dform struct {
 	decls []string
@@ -118,6 +118,30 @@ func dispatch(form string, n int, target string) dform {
 		d("type IS%d interface{ M%d() }\nfunc (SH) M%d() {\n"+fmt.Sprintf(enter, fmt.Sprintf("SH.M%d", n))+"\t%s()\n}", n, n, n, target)
 		s("var sh%d IS%d = SH{}", n, n)
 		s("sh%d.M%d()", n, n)
+	case "mapKeyIface":
+		// the receiver only ever lives as the key of a map (set idiom)
+		d("type W%d struct{}\nfunc (W%d) M() {\n"+fmt.Sprintf(enter, fmt.Sprintf("W%d.M", n))+"\t%s()\n}", n, n, target)
+		s("mk%d := map[I]struct{}{}", n)
+		s("mk%d[W%d{}] = struct{}{}", n, n)
+		s("for k%d := range mk%d {\n\tk%d.M()\n}", n, n, n)
+	case "mapKeyField":
+		// the set of receivers is a map-typed field of a heap struct, filled and read through methods
+		d("type W%d struct{ x *int }\nfunc (w *W%d) M() {\n"+fmt.Sprintf(enter, fmt.Sprintf("W%d.M", n))+"\t%s()\n}", n, n, target)
+		d("type B%d struct{ subs map[I]struct{} }\nfunc (b *B%d) add(i I) {\n"+fmt.Sprintf(enter, fmt.Sprintf("B%d.add", n))+"\tb.subs[i] = struct{}{}\n}\nfunc (b *B%d) all() {\n"+
+			fmt.Sprintf(enter, fmt.Sprintf("B%d.all", n))+"\tfor k := range b.subs {\n\t\tk.M()\n\t}\n}", n, n, n)
+		s("b%d := &B%d{subs: map[I]struct{}{}}", n, n)
+		s("b%d.add(&W%d{})", n, n)
+		s("b%d.all()", n)
+	case "mapKeyPtr":
+		d("type H%d struct{ F func() }", n)
+		s("mp%d := map[*H%d]bool{}", n, n)
+		s("mp%d[&H%d{F: %s}] = true", n, n, target)
+		s("for k%d := range mp%d {\n\tk%d.F()\n}", n, n, n)
+	case "mapKeyChan":
+		s("kc%d := make(chan func(), 1)", n)
+		s("kc%d <- %s", n, target)
+		s("mc%d := map[chan func()]int{kc%d: 1}", n, n)
+		s("for k%d := range mc%d {\n\t(<-k%d)()\n}", n, n, n)
 	default:
 		panic("form " + form)
 	}
